@@ -19,7 +19,9 @@ S == PA(<<NName(ks)>>)  T == PA(<<NName(kt)>>)  ID == PA(<<NName(kid)>>)  K == P
 SVals == {Undef, Str(kx), Str(<<121>>), Str(<<122>>), IntV(5)}
 TVals == {Undef, Str(kx), Str(<<119>>)}
 It(i, sv, tv) == Obj(ObjFromPairs(<< <<kid, IntV(i)>>, <<kk, IntV(i * 2)>> >> \o (IF IsUndef(sv) THEN <<>> ELSE << <<ks, sv>> >>) \o (IF IsUndef(tv) THEN <<>> ELSE << <<kt, tv>> >>)))
-Arrays(n) == {Arr([i \in 1..n |-> It(i, f[i][1], f[i][2])]) : f \in [1..n -> SVals \X TVals]}
+\* up to three items with every combination of both members; longer arrays vary the grouping member only
+Arrays(n) == IF n <= 3 THEN {Arr([i \in 1..n |-> It(i, f[i][1], f[i][2])]) : f \in [1..n -> SVals \X TVals]}
+             ELSE {Arr([i \in 1..n |-> It(i, f[i], IF i % 2 = 0 THEN Undef ELSE Str(kx))]) : f \in [1..n -> SVals]}
 AllArrays == UNION {Arrays(n) : n \in 0..MaxItems}
 
 Pair(k, v) == <<k, v>>
